@@ -604,6 +604,8 @@ int sm2_private_key_info_decrypt_from_der(SM2_KEY *sm2,
 	uint8_t pkey_info[256];
 	const uint8_t *cp = pkey_info;
 	size_t pkey_info_len;
+	const uint8_t *inner_attrs;
+	size_t inner_attrs_len;
 
 	if (!sm2 || !attrs || !attrs_len || !pass || !in || !(*in) || !inlen) {
 		error_print();
@@ -626,11 +628,14 @@ int sm2_private_key_info_decrypt_from_der(SM2_KEY *sm2,
 	sm4_set_decrypt_key(&sm4_key, key);
 	if (sm4_cbc_padding_decrypt(&sm4_key, iv, enced_pkey_info, enced_pkey_info_len,
 			pkey_info, &pkey_info_len) != 1
-		|| sm2_private_key_info_from_der(sm2, attrs, attrs_len, &cp, &pkey_info_len) != 1
+		|| sm2_private_key_info_from_der(sm2, &inner_attrs, &inner_attrs_len, &cp, &pkey_info_len) != 1
 		|| asn1_length_is_zero(pkey_info_len) != 1) {
 		error_print();
 		goto end;
 	}
+	// the attributes lie in pkey_info[], which is cleared and goes out of scope: none can be returned
+	*attrs = NULL;
+	*attrs_len = 0;
 	ret = 1;
 end:
 	gmssl_secure_clear(&sm4_key, sizeof(sm4_key));
